@@ -57,6 +57,24 @@ template <class T> struct PoolT {
         return out.empty() ? "-" : out;
     }
 
+    // an operation is applicable when its constructor target is not alive, every other object it names is alive and a
+    // store through data() stays within size() (the model's `pre`); shrunk or hand-written replays may violate this
+    bool applicable(const std::string &op) {
+        char c = op[0];
+        int o = atoi(op.c_str() + 1);
+        size_t comma = op.find(','), colon = op.find(':');
+        long a1 = comma != std::string::npos ? atol(op.c_str() + comma + 1) : 0;
+        if (o < 0 || o >= NOBJ) return false;
+        bool ctor = c == 'D' || c == 'U' || c == 'C' || c == 'M';
+        if (ctor ? live[o] : !live[o]) return false;
+        if (c == 'C' || c == 'M' || c == 'c' || c == 'm') { if (a1 < 0 || a1 >= NOBJ || !live[a1]) return false; }
+        if (c == 'W') {
+            size_t n = colon == std::string::npos || op.substr(colon + 1) == "-" ? 0 : (op.size() - colon - 1) / (2 * (sizeof(T) > 4 ? 4 : sizeof(T)));
+            if (a1 < 0 || (size_t)a1 + n > at(o)->size()) return false;
+        }
+        return std::string("DUCMXRcmAFW").find(c) != std::string::npos;
+    }
+
     void apply(const std::string &op) {
         char c = op[0];
         int o = atoi(op.c_str() + 1);
@@ -103,9 +121,11 @@ template <class T> static std::string run_hist(const Args &a) {
     bool is_fault = a.op == "fault";
     for (const auto &op : ops) {
         ++step;
+        if (!pool.applicable(op)) { pool.destroy_all(); return "invalid step=" + std::to_string(step); }
         pool.apply(op);
         out += "s" + std::to_string(step) + "=" + pool.snapshot() + " ";
     }
+    if (is_fault && !pool.applicable(a.get("op"))) { pool.destroy_all(); return "invalid step=" + std::to_string(step + 1); }
     if (is_fault) {
         // run the last operation with its k-th allocation failing; the pre-state is the one just built
         long k = (long)a.num("k");
